@@ -8,7 +8,7 @@ from ..common import is_ok
 
 ID = "C05"
 LEVEL = "exploration"
-RULE = ("(a) bounded-exhaustive: every sequence of <=2 (quick) / <=3 (thorough) calls over the 26-call "
+RULE = ("(a) bounded-exhaustive: every sequence of <=2 (quick; 702) / <=4 (thorough; 475 254) calls over the 26-call "
         "alphabet {store_object(pid in {a, ab, None}, content in {X, Y}, validation in {none, right, "
         "wrong}), tag_object(pid, cid in {cid(X), cid(Y), never stored}), delete_object(pid), "
         "delete_if_invalid_object(content, right/wrong)}; (b) Hypothesis: histories of up to 30 calls "
@@ -26,7 +26,7 @@ FORMATS = [None, "fmt:x", "fmt:y"]
 
 
 def examples(tier):
-    return 1000 if tier == "quick" else 8000
+    return 1000 if tier == "quick" else 40000
 
 
 def _alphabet():
@@ -54,7 +54,7 @@ def enumerate_cases(tier):
     al = _alphabet()
     base = {"cfg": {"algo": "SHA-256", "depth": 3, "width": 2},
             "contents": [{"hex": "58"}, {"hex": "5959"}], "docs": []}
-    for n in ((1, 2) if tier == "quick" else (1, 2, 3)):
+    for n in ((1, 2) if tier == "quick" else (1, 2, 3, 4)):
         for seq_ in itertools.product(al, repeat=n):
             yield dict(base, ops=list(seq_), exhaustive=True)
 
